@@ -5,7 +5,8 @@ From C21 Require Import C21Spec C21_gen C21Proofs.
 Import ListNotations.
 Local Open Scope R_scope.
 
-(* id_map, pipe_map, keep2: see C21Spec.v *)
+(* id_map, pipe_map, keep2: see C21Spec.v.  The ALTERED tensors of the axisymmetrical generalised plane stress hypothesis are in
+   C21ProofsAgps.v / C21ProofsAgpsRefuted.v *)
 
 Ltac red_entry D3 D :=
   unfold el, id_map, pipe_map, keep2; cbn [Nat.mul Nat.add Nat.ltb Nat.leb Nat.eqb andb negb];
@@ -23,12 +24,6 @@ Section IsoReductions.
     destruct (adm_facts E nu Hadm) as [HE [H1 [H2 _]]]. destruct Hadm as [_ [Hn1 Hn2]].
     assert (1 - nu <> 0) by lra. assert (1 - nu * nu <> 0) by nra.
     intros i j Hi Hj. cases i; cases j; red_entry iso3d iso_pstress; field; nzs.
-  Qed.
-  Lemma iso_agps_ok : condensed 3 (iso_agps E nu) (iso3d E nu) id_map 2 keep2.
-  Proof.
-    destruct (adm_facts E nu Hadm) as [HE [H1 [H2 _]]]. destruct Hadm as [_ [Hn1 Hn2]].
-    assert (1 - nu <> 0) by lra. assert (1 - nu * nu <> 0) by nra.
-    intros i j Hi Hj. cases i; cases j; red_entry iso3d iso_agps; field; nzs.
   Qed.
 End IsoReductions.
 
@@ -80,6 +75,4 @@ Section Ortho.
   Proof. pose proof det_poly as Hp. intros i j Hi Hj. unfold C3. cases i; cases j; red_entry ortho3d ortho_pstress; first [reflexivity | field; nzs]. Qed.
   Lemma ortho_pstress_plate_ok : condensed 4 (ortho_pstress_plate E1 E2 E3 n12 n23 n13 G12 G23 G13) C3 id_map 2 keep2.
   Proof. pose proof det_poly as Hp. intros i j Hi Hj. unfold C3. cases i; cases j; red_entry ortho3d ortho_pstress_plate; first [reflexivity | field; nzs]. Qed.
-  Lemma ortho_agps_ok : condensed 3 (ortho_agps E1 E2 E3 n12 n23 n13 G12 G23 G13) C3 id_map 2 keep2.
-  Proof. pose proof det_poly as Hp. intros i j Hi Hj. unfold C3. cases i; cases j; red_entry ortho3d ortho_agps; first [reflexivity | field; nzs]. Qed.
 End Ortho.
